@@ -91,8 +91,13 @@ TABLE = {
             "partial: allocation behaviour of compiled code is rustc's; sampled by the probe.",
             'Lean 4 theorem (exact call shapes) + differential correspondence + counting-allocator probe', "5/C14"),
     "C15": ("Lean theorem T_C15: the model never reaches a panic site, for all attribute token lists and all items; documented "
-            "misuses map to their messages. On the real side every case runs under catch_unwind, the generated region is re-parsed, "
-            "and a malformed-input stream is included.",
+            "misuses map to their messages (T_C15_misuse) *and to the tokens to blame* (T_C15_at: message and leaf range of the diagnostic are "
+            "one of the listed (misuse, place) pairs; T_C15_where + At.slice: every item-side place is a slice of the item holding exactly "
+            "the offending tokens - the function's name, its receiver, the dependency type proper, the unsupported trait member, the `unsafe` "
+            "of an unsafe mod); no listed misuse => the model expands (T_C15_accepts). On the real side every case runs under catch_unwind, "
+            "the generated region is re-parsed, a malformed-input stream and the misuse matrix are included; the leaf range each real "
+            "diagnostic points at (span-locations) is compared with the model's, and rustc's own primary spans are checked by the probe "
+            "n_c15_locations (20 located diagnostics).",
             "Inputs syn itself rejects are outside the model; they are covered by the search only.",
             "Lean 4 theorem (panic-freedom of the model) + fuzzing of the real macro", "5/C15"),
     "C16": ("Lean theorem T_C16: for all parameter pattern lists the generated method declares plain identifiers, pairwise distinct "
